@@ -96,3 +96,45 @@ Theorem c05_browser_drops_session_cookie_via_sso_proxy : forall e pe steps dt (p
   Jar.jar_cookie trust now u (Retry.b_jar (snd (SsoProxyJarP.px_step e pe px b0 q f))) (Cookie.cookie_name (Retry.e_cfg e) Cookie.CkSession) = None.
 Proof. exact SsoProxyJarP.jar_after_logout_sso_proxy. Qed.
 Print Assumptions c05_browser_drops_session_cookie_via_sso_proxy.
+
+(** ---- Which store entry a logout removes (pkg/session/id.go ExternalID, session_manager.go key / DeleteForExternalID;
+    Model/SessionKey.v, tied to the code by `wwh sesskey`). ---- *)
+From WW Require Model.SessionKey Proofs.SessionKeyP.
+
+(** The front-channel logout the provider sends for the `sid` it put into the ID token deletes exactly the entry the login
+    callback wrote - whatever the discovery document requires and whatever `session_state` the callback carried. *)
+Theorem c05_frontchannel_logout_hits_the_login_entry : forall provider client sid sid_required session_state ss_required generated,
+  SessionKey.login_key provider client (SessionKey.external_id (Some sid) sid_required session_state ss_required) generated
+  = Some (SessionKey.frontchannel_key provider client sid).
+Proof. exact SessionKeyP.frontchannel_hits_login_key. Qed.
+Print Assumptions c05_frontchannel_logout_hits_the_login_entry.
+
+(** What must NOT change: within a deployment a logout for one provider session id never removes the entry of a session with
+    another id (the key determines the id), for all byte strings. *)
+Theorem c05_logout_removes_no_other_session : forall provider client sid sid',
+  SessionKey.frontchannel_key provider client sid = SessionKey.store_key provider client sid' -> sid = sid'.
+Proof. exact SessionKeyP.frontchannel_hits_only_its_session. Qed.
+Print Assumptions c05_logout_removes_no_other_session.
+
+(** Deployments sharing one store (replicas of different applications, SSO): when provider names and client ids contain no
+    colon the key determines provider, client and id, so no deployment's logout, refresh or re-login touches another
+    deployment's entry ... *)
+Theorem c05_store_keys_separate_deployments : forall p1 c1 a p2 c2 b,
+  ~ In SessionKey.colon p1 -> ~ In SessionKey.colon p2 -> ~ In SessionKey.colon c1 -> ~ In SessionKey.colon c2 ->
+  SessionKey.store_key p1 c1 a = SessionKey.store_key p2 c2 b -> p1 = p2 /\ c1 = c2 /\ a = b.
+Proof. exact SessionKeyP.store_key_inj_all. Qed.
+Print Assumptions c05_store_keys_separate_deployments.
+
+(** ... and the hypothesis cannot be dropped: client ids "a:b" and "a" share keys (outside C05's quantifier - one session,
+    replicas of ONE deployment - and not raised; recorded in DESIGN.md 0.4 as an observation). *)
+Theorem c05_store_keys_colon_client_refuted :
+  exists p c1 a c2 b, c1 <> c2 /\ SessionKey.store_key p c1 a = SessionKey.store_key p c2 b.
+Proof. exact SessionKeyP.store_key_colon_collision. Qed.
+Print Assumptions c05_store_keys_colon_client_refuted.
+
+(** Non-vacuity: the callback never yields an EMPTY id on its own (an empty `session_state` counts as absent); only a provider
+    that issues `"sid": ""` can make all its users share one key. *)
+Theorem c05_callback_never_supplies_empty_id : forall sid_required session_state ss_required,
+  SessionKey.external_id None sid_required session_state ss_required <> SessionKey.ExtId nil.
+Proof. exact SessionKeyP.external_id_never_empty_from_callback. Qed.
+Print Assumptions c05_callback_never_supplies_empty_id.
